@@ -93,13 +93,15 @@ def sym_paths(fn_node, rewrite=None, maxpaths=256, loops='error'):
             else:
                 yield from block(rest, q)
 
-    def record_calls(p, node):
-        for c in ast.walk(node):
+    def record_calls(p, orig):
+        """emissions syntactically present in the ORIGINAL statement (so that a temporary holding an
+        emission's result is not counted again where it is used), with their arguments substituted"""
+        for c in ast.walk(orig):
             if isinstance(c, ast.Call) and isinstance(c.func, ast.Attribute) and c.func.attr in ('_emit', 'emit') \
                     and isinstance(c.func.value, ast.Name) and c.func.value.id == 'self':
-                data = c.args[0] if c.args else None
-                md = next((k.value for k in c.keywords if k.arg == 'metadata'), c.args[1] if len(c.args) > 1 else None)
-                p.emits.append((data, md))
+                data = rw(p.ev(c.args[0])) if c.args else None
+                mdn = next((k.value for k in c.keywords if k.arg == 'metadata'), c.args[1] if len(c.args) > 1 else None)
+                p.emits.append((data, rw(p.ev(mdn)) if mdn is not None else None))
 
     def stmt(s, p):
         if isinstance(s, ast.Expr):
@@ -107,14 +109,14 @@ def sym_paths(fn_node, rewrite=None, maxpaths=256, loops='error'):
                 yield p
                 return
             q = p.copy()
+            record_calls(q, s.value)
             v = rw(q.ev(s.value))
-            record_calls(q, v)
             q.calls.append(v)
             yield q
         elif isinstance(s, ast.Assign):
             q = p.copy()
+            record_calls(q, s.value)
             v = rw(q.ev(s.value))
-            record_calls(q, v)
             for t in s.targets:
                 assign(q, t, v)
             yield q
@@ -126,8 +128,9 @@ def sym_paths(fn_node, rewrite=None, maxpaths=256, loops='error'):
             yield q
         elif isinstance(s, ast.Return):
             q = p.copy()
+            if s.value is not None:
+                record_calls(q, s.value)
             v = rw(q.ev(s.value)) if s.value is not None else ast.Constant(value=None)
-            record_calls(q, v)
             q.ret = v
             yield q
         elif isinstance(s, ast.Raise):
